@@ -4,7 +4,7 @@ import GoUefi.Model.Utf16
 /-
   Model of efivarfs.bootorder / GetBootEntry naming and of efi/device (C18), after the fix:
   commits (F15 upper-case boot numbers; F15b/c, F12c hard-drive text form; F12 device-path reader
-  returns an error instead of calling log.Fatal).
+  returns an error instead of calling log.Fatal; F35 a trailing single byte of BootOrder is not an entry).
 -/
 namespace GoUefi
 
@@ -18,14 +18,23 @@ def hex4U (n : Nat) : List Char :=
 namespace Spec
 /-- firmware's name of a boot option: "Boot" followed by four upper-case hex digits (UEFI §3.3) -/
 def fwBootName (n : Nat) : List Char := "Boot".toList ++ hex4U n
+
+/-- the complete little-endian 16-bit entries of a BootOrder value (UEFI §3.3: an array of UINT16), in
+    order; a trailing single byte of an odd-length value is not an entry -/
+def entriesLE : Bytes → List Nat
+  | a :: b :: r => (a.toNat + 256 * b.toNat) :: entriesLE r
+  | [_] => []
+  | [] => []
 end Spec
 
 namespace Impl
-/-- `bootorder.Unmarshal`: 2-byte little-endian chunks, each formatted with "Boot%04X";
-    a trailing single byte is read as the low byte of a last entry -/
+/-- `bootorder.Unmarshal` (`for i := 0; b.Len() >= 2; i += 2`): the complete 2-byte little-endian
+    chunks, each formatted with "Boot%04X".  A trailing single byte of an odd-length value is no
+    16-bit entry: it is not decoded and adds no name (F35 repair: the loop ran while `b.Len() != 0`
+    and read the last byte, next to a zero filler, as the low byte of a made-up last entry). -/
 def bootOrder : Bytes → List (List Char)
   | a :: b :: r => ("Boot".toList ++ hex4U (a.toNat + 256 * b.toNat)) :: bootOrder r
-  | [a] => ["Boot".toList ++ hex4U a.toNat]
+  | [_] => []
   | [] => []
 
 /-- device path nodes as the Go structs keep them (header = type, subtype, 2 length bytes) -/
